@@ -77,3 +77,17 @@ PROPS.update({
     "C11": _robot("as C05 with feedback-heavy layouts and raising getters; non-trivial = feedbacks present and at least 2 modes with iterations; distinct = distinct expected callback-role sequence",
                   ["iterations"], _ROBOT_LT),
 })
+
+ENGINE_TEXT["sa"] = "StatefulAutonomous under simulated autonomous periods: generated mode classes, seeded tm sequences, dashboard edits, repeated periods, second instance"
+PROPS["C15"] = {
+    "engine": "sa", "level": "exploration",
+    "rule": "seeded mode definitions (chains/loops/branches, 16 signatures, registered variables) and per-period tm sequences aimed at expiry instants, dashboard edits between and during periods, 1-4 periods, sequential second instance; non-trivial = a state is entered in a second or later period or a state is re-entered; distinct = distinct trace shape",
+    "level_text": "seeded search over autonomous-period histories on the real StatefulAutonomous with real NetworkTables values; every on_iteration compared with a reference model written from the property text plus model-independent history invariants; sampling, not proof",
+    "level_note": "trusted: local ntcore; reference model/invariants in /verif; <=5 states, <=100 iterations per period, <=4 periods; iterations only between on_enable and on_disable (the selector's protocol); two instances never interleaved",
+    "quick": {"runs": 9000, "wall_s": 150}, "thorough": {"runs": 400000, "wall_s": 1500},
+    "probes_expected": ["expiry_handover", "entries_in_later_period", "entry_with_state_tm_gt_0", "next_state_to_self", "idle_iteration_after_end"],
+    "state_measure": "abstract model states (kind of current state, fresh, enabled) and (state, op, state) transitions, hashed",
+    "real_vs_stub": {"real": ["robotpy_ext.autonomous.stateful_autonomous from the working tree", "ntcore local instance (SmartDashboard table)", "HAL simulated clock"],
+                     "simulated": ["the autonomous loop supplying tm", "dashboard edits", "state-function bodies (generated)"]},
+    "assumptions": ["single thread", "one in-state action per call", "tm strictly increasing inside a period"],
+}
